@@ -82,9 +82,9 @@ func C02(tier Tier) int {
 
 func c04Profiles(tier Tier) []*explore.Profile {
 	o := menuOpts{thorough: tier.Thorough(), shards: 2}
-	depth := 4
+	depth := 3
 	if tier.Thorough() {
-		depth = 5
+		depth = 4
 	}
 	p := &explore.Profile{
 		Name: "freeze", EnvCfg: ledgerEnv(2), Seeds: seedsOf("mixed", "frozen"), Depth: depth, Deadline: tierDeadline(tier),
@@ -125,18 +125,34 @@ func transferMenuLight(w *world.World, o menuOpts) []world.Action {
 			if string(to) == string(from) {
 				continue
 			}
-			if held(w, from, "F") > 0 {
-				acts = append(acts, uni.ESDTTransfer(from, to, uni.F, 1))
-				acts = append(acts, uni.Multi(from, to, []uni.Ent{{Tok: uni.F, Nonce: 0, Q: 1}}))
-				a := uni.ESDTTransfer(from, to, uni.F, 1)
-				a.CallType = vmcommon.AsynchronousCall
-				acts = append(acts, a)
+			var batch []world.Action
+			if h := held(w, from, "F"); h > 0 {
+				batch = append(batch, uni.ESDTTransfer(from, to, uni.F, 1))
+				batch = append(batch, uni.Multi(from, to, []uni.Ent{{Tok: uni.F, Nonce: 0, Q: 1}}))
+				if h > 1 {
+					// the whole holding (the entry disappears)
+					acts = append(acts, uni.ESDTTransfer(from, to, uni.F, h), uni.Multi(from, to, []uni.Ent{{Tok: uni.F, Nonce: 0, Q: h}}))
+				}
 			}
-			if held(w, from, "S\x01") > 0 {
-				acts = append(acts, uni.NFTTransfer(from, to, uni.S, 1, 1))
-				acts = append(acts, uni.Multi(from, to, []uni.Ent{{Tok: uni.S, Nonce: 1, Q: 1}}))
+			if h := held(w, from, "S\x01"); h > 0 {
+				batch = append(batch, uni.NFTTransfer(from, to, uni.S, 1, 1))
+				batch = append(batch, uni.Multi(from, to, []uni.Ent{{Tok: uni.S, Nonce: 1, Q: 1}}))
 				if held(w, from, "F") > 0 {
-					acts = append(acts, uni.Multi(from, to, []uni.Ent{{Tok: uni.S, Nonce: 1, Q: 1}, {Tok: uni.F, Nonce: 0, Q: 1}}))
+					batch = append(batch, uni.Multi(from, to, []uni.Ent{{Tok: uni.S, Nonce: 1, Q: 1}, {Tok: uni.F, Nonce: 0, Q: 1}}))
+				}
+				if h > 1 {
+					acts = append(acts, uni.NFTTransfer(from, to, uni.S, 1, h))
+				}
+			}
+			acts = append(acts, batch...)
+			// every call flag combination: the other three call types, with and without an attached call
+			for _, ct := range allCallTypes[1:] {
+				for i, a := range batch {
+					if !o.thorough && (i+int(ct))%2 == 0 && ct != vmcommon.AsynchronousCallBack {
+						continue
+					}
+					a.CallType = ct
+					acts = append(acts, a)
 				}
 			}
 		}
